@@ -67,7 +67,21 @@ def setup(engine):
         _install_bin_models()
 
 
+_PADS = ["pad_%03d" % i for i in range(600)]
+_TRACED = [False]
+
+
+def _untraced():
+    """Concrete-only sections run outside CrossHair's tracer (C07 engineering note); a no-op natively."""
+    if _TRACED[0]:
+        from crosshair.tracers import NoTracing
+        return NoTracing()
+    import contextlib
+    return contextlib.nullcontext()
+
+
 def _install_bin_models():
+    _TRACED[0] = True
     from vf.stubs import binio
     import srctools._engine_db as edb
     binio.selftest()
@@ -253,7 +267,8 @@ VT_REPR = ["STRING", "INT", "BOOL", "FLOAT", "TARG_DEST", "custom"]
 THIRDS = ["", "Some: text + [x] = (y) // z"]
 
 
-def h_kv(s: str, t: str, cs: bool, n: int, m: int, slots: str, vt: str, third: int, ro: bool = False, rep: bool = False) -> None:
+def h_kv(s: str, t: str, cs: bool, n: int, m: int, slots: str, vt: str, third: int, ro: bool = False, rep: bool = False,
+         joined: bool = False) -> None:
     """One keyvalue; two of display name / default / description symbolic (exact lengths n, m), the third a constant."""
     from srctools.fgd import KVDef, ValueTypes
     assume(len(s) == n and len(t) == m)
@@ -267,7 +282,7 @@ def h_kv(s: str, t: str, cs: bool, n: int, m: int, slots: str, vt: str, third: i
     f, e = _one_ent()
     _add_kv(e, KVDef("health", typ, vals["disp"], vals["default"], vals["desc"], None, ro, rep))
     _add_kv(e, KVDef("after", ValueTypes.INT, "After", "7", "the next keyvalue"))
-    _roundtrip(f, cs, True)
+    _roundtrip(f, cs, True, joined)
 
 
 def h_kv_witness(s: str, t: str, cs: bool, n: int, m: int, slots: str, vt: str, third: int) -> None:
@@ -424,15 +439,34 @@ def h_plain(s: str, k_i: int, ls: bool, n: int, slot: str, pin: bool = False) ->
     _roundtrip(f, False, ls)
 
 
-def h_long(s: str, cs: bool, n: int, tail: str, slot: str) -> None:
-    """'+' splitting: symbolic head + 1000-char concrete tail => the escaped text crosses LIMIT=1000."""
+LONG_KINDS = ["words", "solid", "nl", "quote", "tab", "backslash", "lf"]
+LONG_K = [996, 997, 998, 999, 1000, 1001, 1002]
+LONG_SLOTS = ["kv_desc", "ent_desc", "disp", "inp_desc"]
+
+
+def _long_text(kind, k):
+    if kind == "words":
+        return (LONG_TAIL_WORDS + LONG_TAIL_WORDS)[:k + 31]
+    if kind == "solid":
+        return "x" * (k + 31)
+    if kind == "nl":
+        return (LONG_TAIL_NL + LONG_TAIL_NL)[:k + 31]
+    ch = {"quote": '"', "tab": "\t", "backslash": "\\", "lf": "\n"}[kind]
+    return "x" * k + ch + "y" * 30          # an escape sequence at / next to the 1000-char split position
+
+
+def h_long(k_i: int, s_i: int, cs: bool, kind: str) -> None:
+    """'+' splitting: texts whose escaped form crosses LIMIT=1000 (concrete content; length offset, slot and custom_syntax
+    by symbolic index).  A symbolic character inside a 1000-char str makes every path > 300 s under CrossHair, so the
+    content is concrete here: enumeration in solver clothing, stated in META."""
     from srctools.fgd import KVDef, IODef, ValueTypes
-    assume(len(s) == n)
+    assume(0 <= k_i < len(LONG_K) and 0 <= s_i < len(LONG_SLOTS))
     if not cs:
-        assume(_plain_text(s))
-    tl = {"words": LONG_TAIL_WORDS, "solid": LONG_TAIL_SOLID, "nl": LONG_TAIL_NL}[tail]
+        assume(kind != "quote" and kind != "backslash")
+    k = pick(LONG_K, k_i)
+    slot = pick(LONG_SLOTS, s_i)
+    text = _long_text(kind, k)
     f, e = _one_ent()
-    text = s + tl
     e.desc = text if slot == "ent_desc" else ""
     _add_kv(e, KVDef("k", ValueTypes.STRING, text if slot == "disp" else "K", "", text if slot == "kv_desc" else ""))
     e.inputs["a"] = {frozenset(): IODef("A", ValueTypes.VOID, text if slot == "inp_desc" else "")}
@@ -459,23 +493,24 @@ def _bin_ent(kind_name, classname, vt, ro, bit, dflt, alias, rt, rtags, base_nam
 def _base_dict(edb, cbase, make_file):
     """The shared string table as serialise() builds it: CBaseEntity's strings padded to exactly SHARED_STRINGS entries
     (block-local indices start at SHARED_STRINGS), written and read back with the real BinStrDict code."""
-    strings = set()
+    with _untraced():          # everything here is concrete
+        strings = set()
 
-    def rec(st):
-        strings.add(st)
-        return b"\0\0"
-    edb.ent_serialise(cbase, make_file(), rec)
-    i = 0
-    while len(strings) < edb.SHARED_STRINGS:
-        strings.add("pad_%03d" % i)
-        i += 1
-    base_dict = edb.BinStrDict(strings, None)
-    fb = make_file()
-    base_dict.serialise(fb)
-    edb.ent_serialise(cbase, fb, base_dict)
-    fb2 = make_file(fb.getvalue())
-    base_list, from_dict = edb.BinStrDict.unserialise(fb2, [])
-    cb = edb.ent_unserialise(fb2, "_CBaseEntity_", from_dict)
+        def rec(st):
+            strings.add(st)
+            return b"\0\0"
+        edb.ent_serialise(cbase, make_file(), rec)
+        for pad in _PADS:
+            if len(strings) >= edb.SHARED_STRINGS:
+                break
+            strings.add(pad)
+        base_dict = edb.BinStrDict(strings, None)
+        fb = make_file()
+        base_dict.serialise(fb)
+        edb.ent_serialise(cbase, fb, base_dict)
+        fb2 = make_file(fb.getvalue())
+        base_list, from_dict = edb.BinStrDict.unserialise(fb2, [])
+        cb = edb.ent_unserialise(fb2, "_CBaseEntity_", from_dict)
     return base_dict, base_list, cb
 
 
@@ -534,7 +569,7 @@ def _cmp_bin(a, b):
         check(x.filename == y.filename and x.type is y.type and x.tags == y.tags, w + " resource", x, y)
 
 
-def h_bin(vt_i: int, rt_i: int, k_i: int, ro: bool, dflt: bool, alias: bool, p_i: int, tagged: bool) -> None:
+def h_bin(vt_i: int, rt_i: int, k_i: int, ro: bool, dflt: bool, alias: bool, p_i: int, tagged: bool, free: str) -> None:
     """ent_serialise -> ent_unserialise of one block of two entities through the real string table."""
     import io as _io
     import srctools._engine_db as edb
@@ -542,6 +577,15 @@ def h_bin(vt_i: int, rt_i: int, k_i: int, ro: bool, dflt: bool, alias: bool, p_i
     types = [x for x in ValueTypes if not x.has_list]
     powers = [0, 1, 7, 23, 31, 126]
     assume(0 <= vt_i < len(types) and 0 <= rt_i < len(edb.FILE_TYPE_ORDER) and 0 <= k_i < len(KINDS) and 0 <= p_i < len(powers))
+    # the four indices are independent: one is free per slice, the others are pinned
+    if free != "vt":
+        assume(vt_i == 3)
+    if free != "rt":
+        assume(rt_i == 2)
+    if free != "kind":
+        assume(k_i == 1)
+    if free != "power":
+        assume(p_i == 3)
     vt = pick(types, vt_i)
     rt = pick(edb.FILE_TYPE_ORDER, rt_i)
     kind = pick(KINDS, k_i)
@@ -562,8 +606,8 @@ def h_bin(vt_i: int, rt_i: int, k_i: int, ro: bool, dflt: bool, alias: bool, p_i
     _cmp_bin(e2, r2)
 
 
-def h_bin_witness(vt_i: int, rt_i: int, k_i: int, ro: bool, dflt: bool, alias: bool, p_i: int, tagged: bool) -> None:
-    h_bin(vt_i, rt_i, k_i, ro, dflt, alias, p_i, tagged)
+def h_bin_witness(vt_i: int, rt_i: int, k_i: int, ro: bool, dflt: bool, alias: bool, p_i: int, tagged: bool, free: str) -> None:
+    h_bin(vt_i, rt_i, k_i, ro, dflt, alias, p_i, tagged, free)
     raise Fail("reached")
 
 
@@ -574,14 +618,36 @@ LAZY_ALIAS = {"alias_same": "target_one", "alias_cross": "target_three", "alias_
 LAZY_NAMES = [n for blk in LAZY_BLOCKS for n in blk]
 
 
+_LAZY_CACHE = []
+
+
 def _lazy_db():
-    """A fresh EngineDB made of three blocks written by the real block writers (what unserialise() would hand over)."""
+    """A fresh EngineDB made of three blocks written by the real block writers (what unserialise() would hand over).
+    The block bytes are concrete: they are built once per process outside the tracer; every call hands out a fresh
+    database object (fresh CBaseEntity, fresh ent_map / unparsed lists)."""
+    import srctools._engine_db as edb
+    with _untraced():
+        if not _LAZY_CACHE:
+            _LAZY_CACHE.append(_lazy_parts())
+        base_bytes, base_list_c, blocks = _LAZY_CACHE[0]
+        fb = edb.io.BytesIO(base_bytes)
+        base_list, from_dict = edb.BinStrDict.unserialise(fb, [])
+        cb = edb.ent_unserialise(fb, "_CBaseEntity_", from_dict)
+        ent_map = {"_cbaseentity_": cb}
+        unparsed = []
+        for bi, (names, data) in enumerate(blocks):
+            for name in names:
+                ent_map[name] = bi
+            unparsed.append((list(names), data))
+    return edb.EngineDB(ent_map, base_list, unparsed)
+
+
+def _lazy_parts():
     import srctools._engine_db as edb
     from srctools.fgd import ValueTypes
     make_file = edb.io.BytesIO
     cbase = _bin_ent("BASE", "_CBaseEntity_", ValueTypes.STRING, False, 1, True, False, edb.FILE_TYPE_ORDER[0], [])
     base_dict, base_list, cb = _base_dict(edb, cbase, make_file)
-    ent_map = {"_cbaseentity_": cb}
     unparsed = []
     vts = [ValueTypes.INT, ValueTypes.FLOAT, ValueTypes.VEC, ValueTypes.STR_MODEL, ValueTypes.BOOL, ValueTypes.COLOR_255, ValueTypes.ANGLES]
     for bi, names in enumerate(LAZY_BLOCKS):
@@ -597,9 +663,11 @@ def _lazy_db():
                 ent.inputs["in_" + name] = ent.inputs.pop("setvalue")
                 ent.inputs["in_" + name][frozenset()].name = "In_" + name
                 ents.append(ent)
-            ent_map[name] = bi
-        unparsed.append((list(names), _ser_block(edb, ents, base_dict, make_file)))
-    return edb.EngineDB(ent_map, base_list, unparsed)
+        unparsed.append((list(names), bytes(_ser_block(edb, ents, base_dict, make_file))))
+    fb = make_file()
+    base_dict.serialise(fb)
+    edb.ent_serialise(cbase, fb, base_dict)
+    return bytes(fb.getvalue()), base_list, unparsed
 
 
 def _sig(ent, depth=0):
@@ -622,6 +690,11 @@ _EAGER = {}
 
 
 def _eager_sigs():
+    with _untraced():
+        return _eager_sigs0()
+
+
+def _eager_sigs0():
     if not _EAGER:
         db = _lazy_db()
         fgd = db.get_fgd()
@@ -652,15 +725,19 @@ def h_lazy(q0: int, q1: int, q2: int, q3: int, nq: int) -> None:
     for q in qs:
         name = pick(LAZY_NAMES, q)
         ent = deepcopy(db.get_ent(name))          # EntityDef.engine_def() = deepcopy(db.get_ent(name))
-        got = _sig(ent)
+        with _untraced():
+            got = _sig(ent)
         check(got == want[name], "lazy lookup of " + name + " differs from the eager load", got, want[name])
         seen.append(name)
     for name in seen:
-        got = _sig(db.get_ent(name))
+        ent = db.get_ent(name)
+        with _untraced():
+            got = _sig(ent)
         check(got == want[name], "second lookup of " + name + " differs from the eager load", got, want[name])
     fgd = db.get_fgd()
     for name in LAZY_NAMES:
-        got = _sig(fgd[name])
+        with _untraced():
+            got = _sig(fgd[name])
         check(got == want[name], "eager load after lazy queries differs for " + name, got, want[name])
 
 
@@ -725,60 +802,78 @@ def obligations(tier):
     pairs = ["disp,default", "disp,desc", "default,desc"]
     # --- keyvalue text
     sl = []
-    lens = [(0, 0), (1, 0), (0, 1), (1, 1)] if q else [(a, b) for a in (0, 1, 2) for b in (0, 1, 2)]
-    for p in pairs:
-        for (n, m) in lens:
-            for third in (0, 1):
-                sl.append({"n": n, "m": m, "slots": p, "vt": "STRING", "third": third})
-    for vt in VT_REPR[1:]:
+    if q:
         for p in pairs:
-            for (n, m) in ([(1, 1)] if q else [(0, 0), (1, 1), (2, 1), (1, 2)]):
-                sl.append({"n": n, "m": m, "slots": p, "vt": vt, "third": 0})
-    for p in pairs:
-        for (n, m) in ([(2, 0), (0, 2)] if q else [(3, 0), (0, 3)]):
-            sl.append({"n": n, "m": m, "slots": p, "vt": "STRING", "third": 0})
-    obls.append(Obl("kv.text", MOD, "h_kv", slices=sl, budget_s=600 if q else 2400, per_path_s=40,
+            for (n, m) in [(0, 0), (1, 0), (0, 1)]:
+                for third in (0, 1):
+                    sl.append({"n": n, "m": m, "slots": p, "vt": "STRING", "third": third})
+            sl.append({"n": 1, "m": 1, "slots": p, "vt": "STRING", "third": 0})
+        for vt in VT_REPR[1:]:
+            sl.append({"n": 1, "m": 0, "slots": "default,desc", "vt": vt, "third": 0})
+            sl.append({"n": 0, "m": 1, "slots": "disp,default", "vt": vt, "third": 0})
+        sl.append({"n": 2, "m": 0, "slots": "disp,desc", "vt": "STRING", "third": 0})
+        sl.append({"n": 0, "m": 2, "slots": "disp,desc", "vt": "STRING", "third": 0})
+    else:
+        for p in pairs:
+            for (n, m) in [(a, b) for a in (0, 1, 2) for b in (0, 1, 2) if a + b <= 3]:
+                for third in (0, 1):
+                    sl.append({"n": n, "m": m, "slots": p, "vt": "STRING", "third": third})
+        for vt in VT_REPR[1:]:
+            for p in pairs:
+                for (n, m) in [(0, 0), (1, 0), (0, 1), (1, 1)]:
+                    sl.append({"n": n, "m": m, "slots": p, "vt": vt, "third": 0})
+        for p in pairs:
+            sl.append({"n": 1, "m": 1, "slots": p, "vt": "STRING", "third": 0, "ro": True, "rep": True})
+    obls.append(Obl("kv.text", MOD, "h_kv", slices=sl, budget_s=600 if q else 3000, per_path_s=40,
                     desc="keyvalue display name / default / description: parse(export(f)) == f and export is a fixed point; "
-                         "custom_syntax, readonly, report symbolic",
+                         "custom_syntax symbolic",
                     bound="two symbolic slots with exact lengths per slice, third slot '' or a punctuation-rich constant"))
     obls.append(Obl("kv.text.witness", MOD, "h_kv_witness", witness=True, budget_s=200, per_path_s=40,
-                    slices=[{"n": 1, "m": 1, "slots": p, "vt": "STRING", "third": 1} for p in pairs], desc="reachability twin"))
+                    slices=[{"n": 1, "m": 0, "slots": p, "vt": "STRING", "third": 1} for p in pairs], desc="reachability twin"))
     obls.append(Obl("kv.types", MOD, "h_kv_types", slices=[{"shape": i} for i in range(6)], budget_s=600, per_path_s=40,
-                    desc="every ValueTypes member as keyvalue / input / output type (I/O decay table)",
-                    bound="type by symbolic index (enumeration in solver clothing)"))
+                    desc="every ValueTypes member as keyvalue / input / output type (I/O decay table); readonly/report/custom_syntax symbolic",
+                    bound="type by symbolic index (enumeration in solver clothing); 6 concrete shapes of name/default/description"))
     # --- choices / flags
-    obls.append(Obl("choices.text", MOD, "h_choices",
-                    slices=[{"n": n, "slot": s} for s in ("label", "desc") for n in ((0, 1) if q else (0, 1, 2))],
-                    budget_s=600 if q else 2400, per_path_s=40,
-                    desc="choices list: label/description symbolic, value and tags by symbolic index", bound="exact length per slice"))
-    obls.append(Obl("flags.text", MOD, "h_flags", slices=[{"n": n} for n in ((0, 1) if q else (0, 1, 2))],
-                    budget_s=600 if q else 2400, per_path_s=40,
-                    desc="spawnflags list: label symbolic, bit/tags by symbolic index, default + label_spawnflags symbolic"))
+    sl = [{"n": 0, "slot": "label"}] + [{"n": n, "slot": s, "pin": True} for s in ("label", "desc") for n in ((1,) if q else (1, 2))]
+    if not q:
+        sl += [{"n": 1, "slot": "label"}, {"n": 1, "slot": "desc"}]
+    obls.append(Obl("choices.text", MOD, "h_choices", slices=sl, budget_s=600 if q else 2400, per_path_s=40,
+                    desc="choices list: label/description symbolic, value (10 tricky values) and tags by symbolic index",
+                    bound="exact length per slice"))
+    sl = [{"n": 0}] + [{"n": n, "pin": True} for n in ((1,) if q else (1, 2))]
+    if not q:
+        sl += [{"n": 1}]
+    obls.append(Obl("flags.text", MOD, "h_flags", slices=sl, budget_s=600 if q else 2400, per_path_s=40,
+                    desc="spawnflags list: label symbolic, bit/tags by symbolic index, default + label_spawnflags + custom_syntax symbolic"))
     # --- full skeleton
-    sl = [{"n": n, "slot": s} for s in FULL_SLOTS for n in ((1,) if q else (0, 1, 2))]
-    if q:
-        sl += [{"n": 0, "slot": "ent_desc"}, {"n": 2, "slot": "res_file"}]
+    sl = [{"n": 0, "slot": "ent_desc"}] + [{"n": n, "slot": s, "pin": True} for s in FULL_SLOTS for n in ((1,) if q else (1, 2))]
+    if not q:
+        sl += [{"n": 1, "slot": s} for s in ("res_file", "tag_desc")]
     obls.append(Obl("full.text", MOD, "h_full", slices=sl, budget_s=900 if q else 3000, per_path_s=60,
                     desc="3-entity skeleton (base, entity of every kind with helpers/tagged duplicates/choices/flags/IO/resources, alias)",
-                    bound="one symbolic leaf, kind and tag set by symbolic index"))
-    obls.append(Obl("full.text.witness", MOD, "h_full_witness", witness=True, slices=[{"n": 1, "slot": "inp_desc"}], budget_s=300,
+                    bound="one symbolic leaf; kind and tag set by symbolic index in the n=0 slice, pinned elsewhere"))
+    obls.append(Obl("full.text.witness", MOD, "h_full_witness", witness=True, slices=[{"n": 1, "slot": "inp_desc", "pin": True}], budget_s=300,
                     per_path_s=60, desc="reachability twin"))
-    obls.append(Obl("full.joined", MOD, "h_full", slices=[{"n": 1, "slot": "out_desc", "joined": True}] if q else
-                    [{"n": 1, "slot": s, "joined": True} for s in ("out_desc", "ent_desc")], budget_s=900 if q else 3000, per_path_s=120,
-                    desc="same, text handed to the parser as ONE string"))
-    obls.append(Obl("plain.text", MOD, "h_plain", slices=[{"n": n, "slot": s} for s in ("ent_desc", "kv_desc", "inp_desc", "out_desc")
-                                                          for n in ((1,) if q else (0, 1, 2))],
-                    budget_s=600 if q else 2400, per_path_s=40, desc="custom_syntax=False on an untagged entity of every kind"))
+    obls.append(Obl("kv.joined", MOD, "h_kv", slices=[{"n": 1, "m": 0, "slots": p, "vt": "STRING", "third": 1, "joined": True}
+                                                      for p in (("default,desc",) if q else pairs)],
+                    budget_s=900 if q else 3000, per_path_s=200,
+                    desc="whole-string delivery: the exported text is handed to the parser as ONE str (smallest skeleton)"))
+    sl = [{"n": 0, "slot": "ent_desc"}] + [{"n": n, "slot": s, "pin": True} for s in ("ent_desc", "kv_desc", "inp_desc", "out_desc")
+                                           for n in ((1,) if q else (1, 2))]
+    obls.append(Obl("plain.text", MOD, "h_plain", slices=sl, budget_s=600 if q else 2400, per_path_s=40,
+                    desc="custom_syntax=False on an untagged entity (every kind in the n=0 slice)"))
     # --- long strings
-    sl = [{"n": n, "tail": t, "slot": s} for t in ("words", "solid", "nl") for (s, n) in
-          ([("kv_desc", 1)] if q else [("kv_desc", 0), ("kv_desc", 1), ("kv_desc", 2), ("ent_desc", 1), ("disp", 1), ("inp_desc", 1)])]
-    obls.append(Obl("long.text", MOD, "h_long", slices=sl, budget_s=900 if q else 3000, per_path_s=120,
-                    desc="'+' splitting of strings crossing the 1000-char limit (symbolic head, three kinds of concrete tail)"))
+    obls.append(Obl("long.text", MOD, "h_long", slices=[{"kind": k} for k in LONG_KINDS], budget_s=900, per_path_s=120,
+                    desc="'+' splitting of strings crossing the 1000-char limit: 7 kinds of content (blanks, none, newlines, an escape "
+                         "sequence at the split position) x 7 length offsets x 4 slots x custom_syntax",
+                    bound="concrete content, offsets/slot/option by symbolic index (enumeration in solver clothing)"))
     # --- binary
-    obls.append(Obl("bin.block", MOD, "h_bin", slices=[{"tagged": t} for t in (False, True)], budget_s=900 if q else 3000, per_path_s=60,
-                    desc="ent_serialise -> string table -> ent_unserialise of a two-entity block",
-                    bound="value type / resource type / kind / flag power by symbolic index; readonly, default, alias bits symbolic"))
-    obls.append(Obl("bin.block.witness", MOD, "h_bin_witness", witness=True, slices=[{"tagged": True}], budget_s=300, per_path_s=60))
+    obls.append(Obl("bin.block", MOD, "h_bin", slices=[{"tagged": t, "free": f} for f in ("vt", "rt", "kind", "power") for t in
+                                                       ((True,) if q and f != "rt" else (False, True))],
+                    budget_s=900 if q else 3000, per_path_s=60,
+                    desc="ent_serialise -> string table -> ent_unserialise of a two-entity block (+ CBaseEntity through the shared table)",
+                    bound="value type / resource type / kind / flag power by symbolic index (one free per slice); readonly, default, alias bits symbolic"))
+    obls.append(Obl("bin.block.witness", MOD, "h_bin_witness", witness=True, slices=[{"tagged": True, "free": "kind"}], budget_s=300, per_path_s=60))
     # --- lazy
     obls.append(Obl("lazy.order", MOD, "h_lazy", slices=[{"nq": k} for k in ((1, 2, 3) if q else (1, 2, 3, 4))],
                     budget_s=900 if q else 3000, per_path_s=60,
